@@ -92,6 +92,13 @@ def run(ck, ix, tier):
 
     # ------------------------------------------------------------ (e) delta twin
     delta_twin_rules(ck, ix)
+    # an explicit as_delta=False must win over the registry default: `as_delta` is replaced by default_as_delta exactly
+    # when it is None (shared with C08: the delta reading of compound offset expressions is part of the offset-unit rules)
+    from .C08 import defaults_from as _defaults_from
+    _fi = ix.func("pint.facets.nonmultiplicative.registry", "GenericNonMultiplicativeRegistry.parse_units_as_container")
+    ck.analysed(_fi)
+    ck.check(_defaults_from(_fi.node, "as_delta", "self.default_as_delta") is not None, "G-PROV", "parse_units_as_container|default_as_delta", _fi.loc(),
+             "as_delta defaults to the registry's default_as_delta only when it is None", "as_delta is no longer replaced by default_as_delta exactly when it is None (an explicit as_delta=False is overridden)")
     return EXPLANATION
 
 
